@@ -1,7 +1,8 @@
 ------------------------------ MODULE MC_Pruning ------------------------------
 (* Exhaustive: every history of inserts / deletes / re-inserts of the same value over Key x Val, *)
 (* in and across blocks, finalized with or without the dead-node record (crash), pruned at every *)
-(* version at every point.                                                                        *)
+(* version at every point; up to MaxRollbacks times the last finalized blocks are abandoned      *)
+(* (rollback to a fork's common ancestor) and replaced by other blocks at the same rounds.        *)
 EXTENDS Pruning
 A_Insert == /\ nops < MaxOps
             /\ \E k \in Key, v \in Val : Txn(k, v)
@@ -13,6 +14,7 @@ A_FinalizeCrash == /\ round <= MaxBlocks
                    /\ Finalize(FALSE)
 A_Prune == /\ pruned < MaxBlocks
            /\ \E v \in 1..MaxBlocks : Prune(v)
-MCNext == A_Insert \/ A_Delete \/ A_Finalize \/ A_FinalizeCrash \/ A_Prune
+A_Rollback == \E n \in 1..MaxBlocks : Rollback(n)
+MCNext == A_Insert \/ A_Delete \/ A_Finalize \/ A_FinalizeCrash \/ A_Prune \/ A_Rollback
 MCSpec == Init /\ [][MCNext]_vars
 =============================================================================
